@@ -147,7 +147,7 @@ store, whatever the chain says about stake and allowance -/
 theorem C07_wire_commit_tx_at_configured_store (wd : World) :
     ∀ t ∈ (scenario nodeWire wd).commitTxsAt, t = Target.preconf := by
   cases wd with
-  | mk s a => cases s <;> cases a <;> decide
+  | mk s a f e => cases s <;> cases a <;> cases f <;> cases e <;> decide
 
 /-- for every wiring: as many commitments reach the bidder as commitment transactions were sent -/
 theorem C07_wire_commitments_eq_txs (w : Wire) (wd : World) :
@@ -158,8 +158,9 @@ theorem C07_wire_commitments_eq_txs (w : Wire) (wd : World) :
 /-- the node yields a commitment exactly when the provider is staked and the bidder funded at the
 configured registries -/
 theorem C07_wire_commitment_iff (wd : World) :
-    (scenario nodeWire wd).commitments = 1 ↔ (wd.staked = true ∧ wd.allowed = true) := by
+    (scenario nodeWire wd).commitments = 1 ↔
+      (wd.staked = true ∧ wd.allowed = true ∧ wd.wellFormed = true ∧ wd.engineAccepts = true) := by
   cases wd with
-  | mk s a => cases s <;> cases a <;> decide
+  | mk s a f e => cases s <;> cases a <;> cases f <;> cases e <;> decide
 
 end Wiring
